@@ -444,8 +444,10 @@ def record(rng, ids, maxkeys, length):
                         cand.append((2, op('GetSigner', i=i, by='identity', loc='cert', t='obj')))
                         if ext_ok:
                             cand.append((1, op('DelIdentity', i=i, loc='ext')))
-                    elif nslot[i] < maxkeys:
-                        cand.append((6, op('TouchIdentity', i=i, k=(i, nslot[i] + 1))))
+                    else:
+                        cand.append((1, op('GetSigner', i=i, by='identity', loc='cert')))       # an identity that is not there
+                        if nslot[i] < maxkeys:
+                            cand.append((6, op('TouchIdentity', i=i, k=(i, nslot[i] + 1))))
                 for k in known_keys:
                     if k in keys:
                         if (k, 2) not in certs:
